@@ -206,7 +206,12 @@ def install(I):
         seq = I.as_seq(ctx, lst)
         n = B._z(seq.length)
         ctx.assumed_ext.add("bisect.bisect_left(sorted list, x) = i with all(e < x for e in a[:i]) and all(e >= x for e in a[i:])")
-        num = lambda v: B.zreal(v)
+        from .values import IsoStr as _Iso
+
+        def num(v):
+            if isinstance(v, _Iso):
+                return z3.ToReal(B._z(v.key))            # ISO dates compare as their date keys
+            return B.zreal(v)
         a, b = z3.Int(ctx.fresh_name("bs_a")), z3.Int(ctx.fresh_name("bs_b"))
         ctx.oblige("bisect_left.requires.list-is-sorted",
                    z3.ForAll([a, b], z3.Implies(z3.And(0 <= a, a < b, b < n), num(seq.elem(a)) <= num(seq.elem(b)))), kind="requires")
